@@ -39,7 +39,11 @@ pub fn calculate_shift<F: RawFloat>(power2: i32) -> i32 {
 #[cfg(feature = "power-of-two")]
 pub fn calculate_power2<F: RawFloat, const FORMAT: u128>(exponent: i64, ctlz: u32) -> i32 {
     let format = NumberFormat::<{ FORMAT }> {};
-    exponent as i32 * log2(format.exponent_base()) + F::EXPONENT_BIAS - ctlz as i32
+    // The exponent can exceed the range of an `i32` (it is only saturated
+    // at `0x10000000` times the exponent radix), so saturate the result.
+    let power2 = exponent.saturating_mul(log2(format.exponent_base()) as i64);
+    let power2 = power2.saturating_add(F::EXPONENT_BIAS as i64 - ctlz as i64);
+    power2.clamp(-0x4000_0000, 0x4000_0000) as i32
 }
 
 /// Bias for marking an invalid extended float.
